@@ -201,12 +201,14 @@ func (t Table) PlayerSeatMap() map[string]int {
 }
 
 func (t Table) FindPlayerIndexFromGamePlayerIndex(gamePlayerIdx int) int {
-	// game player index is out of range
-	if gamePlayerIdx < 0 || gamePlayerIdx >= len(t.State.PlayerStates) {
+	// game player index is out of range (the hand's player list is emptied when the hand is over,
+	// possibly while a callback of that hand is still running: look at one and the same list)
+	gamePlayerIndexes := t.State.GamePlayerIndexes
+	if gamePlayerIdx < 0 || gamePlayerIdx >= len(gamePlayerIndexes) {
 		return UnsetValue
 	}
 
-	playerIdx := t.State.GamePlayerIndexes[gamePlayerIdx]
+	playerIdx := gamePlayerIndexes[gamePlayerIdx]
 
 	// player index is out of range
 	if playerIdx >= len(t.State.PlayerStates) {
